@@ -781,3 +781,31 @@ def borrow_consumer(P, fn, b, i):
                     p, _ = callee_of(t)
                     return (bb, p)
     return None
+
+
+def path_conditions(P, fn, target, limit=64):
+    """Enumerate acyclic CFG paths entry -> target; for each path the list of (switch_bb, taken target bb).
+    Returns a list of such lists (at most `limit`; None if exceeded)."""
+    body = fn.body
+    out = []
+    reach_target = {b for b in range(len(body.blocks)) if target in body.reachable_from(b)}
+
+    def dfs(b, seen, acc):
+        if len(out) > limit:
+            return
+        if b == target:
+            out.append(list(acc))
+            return
+        t = body.blocks[b]["term"]
+        for s in body.succs[b]:
+            if s in seen or s not in reach_target:
+                continue
+            if t["k"] == "switch":
+                acc.append((b, s))
+            dfs(s, seen | {s}, acc)
+            if t["k"] == "switch":
+                acc.pop()
+    dfs(0, {0}, [])
+    if len(out) > limit:
+        return None
+    return out
